@@ -1,6 +1,7 @@
 package main
 
 import (
+	"regexp"
 	xcurve "golang.org/x/crypto/curve25519"
 	"net"
 	"math/bits"
@@ -767,8 +768,45 @@ func init() {
 		}
 		return "<query>"
 	})
+	// Queries built from a concrete source string of the form  key = 'value' [AND key = 'value']...
+	// (all the event-bus queries of package types have this form) are matched natively; anything
+	// else is outside the engine's reach.
+	eqForm := regexp.MustCompile(`^\s*([\w.]+)\s*=\s*'([^']*)'\s*$`)
 	reg("(*github.com/tendermint/tendermint/libs/pubsub/query.Query).Matches", func(m *Machine, fr *frame, a []Value) Value {
-		panic(pathEnd{kind: "unsupported", msg: "pubsub query matching (reflect/regexp/float parsing over strings)"})
+		src, ok := m.side[a[0].(*Value)].(string)
+		if !ok {
+			if m.opts.RealQueries {
+				return fallThrough{}
+			}
+			panic(pathEnd{kind: "unsupported", msg: "pubsub query matching (reflect/regexp/float parsing over strings)"})
+		}
+		events, _ := a[1].(*Map)
+		for _, clause := range strings.Split(src, " AND ") {
+			mm := eqForm.FindStringSubmatch(clause)
+			if mm == nil {
+				panic(pathEnd{kind: "unsupported", msg: "pubsub query matching beyond key = 'value' conjunctions: " + src})
+			}
+			found := false
+			if events != nil {
+				if v, ok := m.mapLookup(fr, events, mm[1]); ok {
+					if vals, ok := v.(Slice); ok {
+						for _, x := range vals {
+							xs, isStr := x.(string)
+							if !isStr {
+								panic(pathEnd{kind: "unsupported", msg: "pubsub query matching against a symbolic event value"})
+							}
+							if xs == mm[2] {
+								found = true
+							}
+						}
+					}
+				}
+			}
+			if !found {
+				return Tuple{false, Iface{}}
+			}
+		}
+		return Tuple{true, Iface{}}
 	})
 }
 
